@@ -14,7 +14,7 @@ ID = "C13"
 RULE = (
     "converse cases: payloads of every length 0-64 (all residues mod 3; bytes drawn from all 256 values) encoded by own "
     "table-driven base64 / hex encoders - bare (at the acceptance boundaries: 21/22/24 characters, 6/7 distinct, pure hex, "
-    "pure letters, slash-heavy, all padding forms), line-wrapped with LF / CRLF / &#13;&#10; / &#xD;&#xA;, in the atob / "
+    "pure letters, slash-heavy, all padding forms), line-wrapped with every line-break spelling (LF, CR, CRLF, &#13;&#10;, &#xD;&#xA;, a lone escaped CR or LF, an escaped CR followed by a literal LF, escaped + literal CRLF), in the atob / "
     "Base64Decode / FromBase64String / FromHexString call forms with '-bxor N' (N in 0..999) before or after, PowerShell byte "
     "arrays of 501-700 elements with / without key - embedded between non-base64 delimiters; the scan must report one node "
     "with exactly the encoded span, the documented type / label and the payload (or no node for the near-misses). Forward: "
@@ -64,13 +64,25 @@ def embed_st():
 
 # ---- converse: bare base64 --------------------------------------------------------------------------
 def b64_cases():
-    return st.fixed_dictionaries({"payload": payloads(12, 64), "wrap": st.sampled_from(["none", "none", "lf", "crlf", "html-dec", "html-hex"]), "width": st.sampled_from([4, 8, 20, 76]), "embed": embed_st(), "mutate": st.sampled_from(["none", "none", "none", "strip-pad", "hexonly", "letters", "slashes", "fewdistinct"])})
+    return st.fixed_dictionaries({"payload": payloads(12, 64), "wrap": st.sampled_from(["none", "none", "lf", "crlf", "html-dec", "html-hex", "cr", "html-cr", "html-cr+lf", "html-xcr+lf", "html-lf", "html-xlf", "html-dec+crlf"]), "width": st.sampled_from([4, 8, 20, 76]), "embed": embed_st(), "mutate": st.sampled_from(["none", "none", "none", "strip-pad", "hexonly", "letters", "slashes", "fewdistinct"])})
 
 
 def wrap_text(t: bytes, kind: str, width: int) -> bytes:
     if kind == "none":
         return t
-    sep = {"lf": b"\n", "crlf": b"\r\n", "html-dec": b"&#13;&#10;", "html-hex": b"&#xD;&#xA;"}[kind]
+    sep = {
+        "lf": b"\n",
+        "crlf": b"\r\n",
+        "html-dec": b"&#13;&#10;",
+        "html-hex": b"&#xD;&#xA;",
+        "cr": b"\r",
+        "html-cr": b"&#13;",
+        "html-cr+lf": b"&#13;\n",
+        "html-xcr+lf": b"&#xD;\n",
+        "html-lf": b"&#10;",
+        "html-xlf": b"&#xA;",
+        "html-dec+crlf": b"&#13;&#10;\r\n",
+    }[kind]
     body = t.rstrip(b"=")
     pad = t[len(body) :]
     lines = [body[i : i + width] for i in range(0, len(body), width)]
